@@ -186,6 +186,17 @@ Example C18_no_dangling_leaf_nonvacuous :
 Proof. exact (conj ex_wf (conj ex_links (conj ex_class_ok (conj ex_planes ex_tr_uniform)))). Qed.
 Print Assumptions C18_no_dangling_leaf_nonvacuous.
 
+(* ... and false for a second call: the first call leaves every cell.surfaces empty (links no longer holds), so
+   the second call re-points nothing and still removes the duplicates *)
+Theorem C18_second_call_refuted : exists P P1 P2 c' n,
+  wf P /\ links P /\ Forall class_ok (p_surfs P) /\ planes_old_nonperiodic (p_surfs P) /\ tr_uniform (p_surfs P) /\
+  (forall s, In s (p_surfs P) -> in_sync (p_surfs P) (p_trs P) s) /\
+  dedup tol9 P = Ok P1 /\ p_surfs P1 = p_surfs P /\ ~ links P1 /\
+  dedup tol4 P1 = Ok P2 /\
+  In c' (p_cells P2) /\ In n (leaf_surfs (c_geom c')) /\ ~ In n (map s_num (p_surfs P2)).
+Proof. exact second_call_refuted. Qed.
+Print Assumptions C18_second_call_refuted.
+
 (* the surface a periodic surface points to can be removed *)
 Theorem C18_no_dangling_periodic_refuted : exists tol P P' s',
   wf P /\ Forall class_ok (p_surfs P) /\ (forall s, In s (p_surfs P) -> in_sync (p_surfs P) (p_trs P) s) /\
